@@ -38,6 +38,10 @@ def s_run(rng, budget_words=2600):
         j["clockq"] = rng.choice(CLOCKQ)  # every clock read returns a multiple of the quantum
     if rng.random() < 0.3:
         j["release"] = 1  # interpret the release profile: no debug assertions, wrapping overflow
+    if rng.random() < 0.25:
+        j["spawn"] = rng.randint(1, 5)  # named / scoped / nested caller threads
+    if rng.random() < 0.2:
+        j["fault"] = rng.randint(1, 3)  # caught illegal calls between draws and/or a victim thread that dies
     # keep the run inside the per-run budget: first shrink the biggest size, then D
     while words_of(j) > budget_words:
         m = max(j["sizes"])
@@ -81,7 +85,7 @@ def m_run(rng, reps):
     return j
 
 
-NOPS = 20  # keep in step with sim/src/ops.rs
+NOPS = 28  # keep in step with sim/src/ops.rs (20..27: the caller's own use of the rand crate)
 
 
 def g_run(rng):
@@ -125,6 +129,56 @@ def o_run(rng, op):
 
 
 BE_TARGET = "s390x-unknown-linux-gnu"
+WIN_TARGET = "x86_64-pc-windows-msvc"
+MAC_TARGET = "aarch64-apple-darwin"
+OS_TARGETS = [WIN_TARGET, MAC_TARGET]
+
+
+def n_run(rng, spawn=None):
+    """Thread creation: the caller threads carry the same name (thread pools), reuse names across generations, are
+    scoped threads, or are spawned by a thread other than main; a few multi-word draws each."""
+    return _job("N", rng, K=rng.choice([2, 4, 8, 16]), D=rng.choice([3, 4, 6, 8]), sizes=[rng.choice([7, 8, 8, 9]), rng.choice([2, 4, 6])],
+                types=rng.choice(["lut", "static", "both"]), main=rng.randint(0, 1), warm=rng.randint(0, 1), preempt=rng.choice(PREEMPT),
+                gens=rng.choice([1, 2, 3]), spawn=spawn or rng.randint(1, 5), release=1 if rng.random() < 0.3 else 0, **{"yield": rng.randint(0, 1)})
+
+
+def f_run(rng, fault=None):
+    """Caller-side faults: illegal calls of other volute functions (documented panics) caught between the draws,
+    and/or a victim thread per generation that draws next to the workers and then dies of an uncaught one."""
+    j = _job("F", rng, K=rng.choice([1, 2, 4, 8]), D=rng.choice([8, 12, 16, 24]), sizes=[rng.choice([7, 8, 8, 9]), rng.choice([0, 1, 3, 5, 6])],
+             types=rng.choice(["lut", "static", "both"]), main=rng.randint(0, 1), warm=rng.randint(0, 1), preempt=rng.choice(PREEMPT),
+             gens=rng.choice([1, 2, 3, 4]), fault=fault or rng.randint(1, 3), release=1 if rng.random() < 0.3 else 0, **{"yield": rng.randint(0, 1)})
+    if rng.random() < 0.3:
+        j["spawn"] = rng.randint(1, 5)
+    if rng.random() < 0.3:
+        j["ops"] = rng.getrandbits(31) | 1
+    return j
+
+
+def y_runs(rng, target, quick):
+    """Other-OS lanes (Windows, macOS/aarch64): the single-thread clause on some (quick) or all (thorough) sizes, and
+    the multi-thread shapes that depend on what the OS provides: thread identity and naming, thread-local storage
+    and its destructors (churn), clocks (coarse), entropy."""
+    out = []
+    sizes = (0, 3, 6, 7, 9) if quick else range(13)
+    for typ in ("lut", "static"):
+        for n in sizes:
+            k, m = rng.choice([(0, 1), (1, 0)])
+            out.append(_job("Y", rng, K=k, main=m, warm=rng.randint(0, 1) if k else 0, D=256, sizes=[n], types=typ, preempt=rng.choice(PREEMPT)))
+    reps = 1 if quick else 6
+    for _ in range(reps):
+        out.append(_job("Y", rng, K=16, D=16, sizes=[7], types="both", preempt=rng.choice(PREEMPT), **{"yield": rng.randint(0, 1)}))
+        for mk in (c_run, g_run, c_run, g_run, n_run, n_run, f_run):
+            j = mk(rng)
+            j.pop("extra_flags", None)
+            out.append(j)
+        for _ in range(2):
+            j = s_run(rng, budget_words=1200)
+            out.append(j)
+    for j in out:
+        j["kind"], j["target"] = "Y", target
+        j.pop("release", None)
+    return out
 
 
 def x_run(rng):
@@ -194,6 +248,15 @@ def make_plan(seed, tier):
             j["kind"], j["target"] = "B", BE_TARGET
             j.pop("release", None)
             jobs.append(j)
+        # N — how the caller threads were created: every mode twice
+        for sp in (1, 2, 3, 4, 5, 1, 2, 3, 4, 5):
+            jobs.append(n_run(rng, sp))
+        # F — caller-side faults: caught illegal calls, dying victim threads, both
+        for fl in (1, 2, 3, 1, 2, 3, 2, 3):
+            jobs.append(f_run(rng, fl))
+        # Y — other operating systems / architectures
+        for t in OS_TARGETS:
+            jobs.extend(y_runs(rng, t, True))
         n_s = 64
     else:
         for typ, n in combos:
@@ -227,6 +290,12 @@ def make_plan(seed, tier):
             j["kind"], j["target"] = "B", BE_TARGET
             j.pop("release", None)
             jobs.append(j)
+        for _ in range(60):
+            jobs.append(n_run(rng))
+        for _ in range(60):
+            jobs.append(f_run(rng))
+        for t in OS_TARGETS:
+            jobs.extend(y_runs(rng, t, False))
         # W — wide and long: 16k single-word draws under contention (several 64 KiB-of-output boundaries of any
         # process-wide generator state fall inside the run)
         for i in range(16):
